@@ -66,7 +66,7 @@ PROPS = {
     'C14': dict(
         technique='Verus overflow/index/unwrap obligations on lifted real functions + Kani bit-precise harnesses; native bounded stand-ins',
         level_text='Panic-freedom (no overflow, no out-of-range index, no failed unwrap, bounded allocation) of each listed unit for all arguments under stated preconditions.',
-        level_note='Per-unit claim, not whole-pipeline. Preconditions cite the upstream validator that establishes them. The rest of the untrusted path (ProgramRegistry, solvers, compile loop, build_* generators, type sizes) is covered only by bounded native stand-ins: known-input replay, a structured mutation space over small programs (n_c14_mutations), size-boundary programs (n_c14_type_sizes).',
+        level_note='Per-unit claim, not whole-pipeline. Preconditions cite the upstream validator that establishes them. The rest of the untrusted path (ProgramRegistry, solvers, compile loop, build_* generators, type sizes) is covered only by bounded native stand-ins: known-input replay, a structured mutation space over small programs (n_c14_mutations), size-boundary programs (n_c14_type_sizes), a sweep of every generic libfunc/type id over boundary generic-argument lists through ProgramRegistry::new (n_c14_specialize), generated contracts and class mutants through the felt-serialized path into from_contract_class (n_class_gen).',
         scope='Arithmetic, indexing, unwrap and allocation obligations of the units on the untrusted-Sierra path; not the whole pipeline.',
         assumptions=[A0, A1, A3, A4,
                      'A6 preconditions that cite an upstream validator (e.g. type sizes in [0, i16::MAX] from get_type_size_map) trust that validator'],
@@ -76,7 +76,7 @@ PROPS = {
     'C04': dict(
         technique='Kani function-contract proofs on the real cost/wallet/builder-step functions; Verus composition lemmas',
         level_text='Deductive proof of the checker side of gas accounting: cost price is linear with the published table, the wallet update is exact and rejects negatives, merges require equal wallets, builder step counting is exact.',
-        level_note='Trusted: A0, tools. Bounded Kani units: wallet key universe (2 tokens), builder var maps (<= 2 vars). Outside contracts and covered only by bounded native stand-ins (never counted as proved): the per-libfunc cost table vs emitted code (n_c04_casm_steps, Sierra corpus), gas metadata validation (n_c04_metadata), the caller-side entry cost and run-time price table of the runner (n_c04_entry_cost). The gas solvers are outside.',
+        level_note='Trusted: A0, tools. Bounded Kani units: wallet key universe (2 tokens), builder var maps (<= 2 vars). Outside contracts and covered only by bounded native stand-ins (never counted as proved): the per-libfunc cost table vs emitted code (n_c04_casm_steps, Sierra corpus), gas metadata validation (n_c04_metadata), the caller-side entry cost and run-time price table of the runner (n_c04_entry_cost), the entry-point cost check of contract classes on generated contracts with an unpaid builtin use (n_class_gen). The gas solvers are outside.',
         scope='Checker side of gas soundness (DESIGN.md 4/C04).',
         assumptions=[A0, A1, A3, A4],
         outside=['gas solvers (compute_costs.rs, eq-solver)', 'core_libfunc_cost_base.rs tables', "the 'Wrong costs for' comparison inside build_from_casm_builder_ex", 'runner gas accounting'],
@@ -101,7 +101,7 @@ PROPS = {
     'C19': dict(
         technique='Verus contracts with loop invariants on lifted contract_segmentation functions',
         level_text='Deductive proof of the segmentation conjunct: segment lengths are positive and add up to the bytecode length; branch targets stay inside their function.',
-        level_note='Proved: the segmentation conjunct. The other conjuncts live in closures of a 250-line function that needs a full compile; selector order, canonical words, hint offsets, segment sum, reproducibility and the felt round trip are covered only by bounded native stand-ins on the checked-in contract classes (n_c19_class: selector order, entry offsets vs function starts, builtin lists and their protocol order, canonical words, hint offsets, segment sum, reproducibility; n_c18_compress: felt round trip). Hash stability under JSON round trips is not covered.',
+        level_note='Proved: the segmentation conjunct. The other conjuncts live in closures of a 250-line function that needs a full compile; selector order, canonical words, hint offsets, segment sum, reproducibility and the felt round trip are covered only by bounded native stand-ins on the checked-in contract classes (n_c19_class: selector order, entry offsets vs function starts, builtin lists and their protocol order, canonical words, hint offsets, segment sum, reproducibility; n_c18_compress: felt round trip; n_class_gen: entry-point signature validation on generated contracts over every builtin-type sequence up to length 3/4 and all 512 protocol-shaped signatures, and on single mutations of valid contracts). Hash stability under JSON round trips is not covered.',
         scope='Bytecode segmentation conjunct (DESIGN.md 4/C19).',
         assumptions=[A0, A1, A3, A4],
         outside=['find_functions_segments', 'functions_statement_ids_to_offsets', 'consts_segments_offsets', 'all other conjuncts of C19 (selectors, builtins, entry offsets, hashes)'],
